@@ -1,6 +1,7 @@
 /* TRUSTED: inet_pton -- accepts/rejects as the platform decides (ghost g_pton_accept4/6, any bytes g_pton_bytes), writes exactly 4/16 bytes on success */
 /* TRUSTED: inet_ntop -- writes a NUL-terminated string of at most INET_ADDRSTRLEN/INET6_ADDRSTRLEN bytes into dst, returns dst; requires size large enough */
 /* TRUSTED: getaddrinfo/freeaddrinfo -- on success yields one platform-chosen addrinfo (any family, any length, any sockaddr bytes); must be released exactly once */
+/* TRUSTED: strlen (abstract: any length) */
 /* TRUSTED: strchr (abstract) -- returns NULL or a pointer into the string, decided by ghost g_has_colon; string content is not interpreted */
 /* TRUSTED: p_strdup (abstract) -- returns NULL or a fresh string; records its argument */
 #ifndef VERIF_ENV_INET_C
@@ -25,11 +26,13 @@ struct addrinfo *g_gai_res; struct sockaddr_in6 *g_gai_sa;
 const char    *g_strdup_arg; char *g_strdup_ret;
 
 /* DFCC havocs every static; ghost counters start from a defined state */
+size_t g_text_len;   /* length of the caller's text: any */
 void inet_env_reset (void)
 {
 	g_pton_calls = g_ntop_calls = g_gai_calls = g_gai_free_calls = 0;
 	g_gai_res = NULL; g_gai_sa = NULL; g_strdup_arg = NULL; g_strdup_ret = NULL;
 	g_ntop_src = NULL; g_ntop_dst = NULL;
+	g_text_len = nondet_size_t ();
 }
 
 int inet_pton (int af, const char *src, void *dst)
@@ -88,6 +91,9 @@ void freeaddrinfo (struct addrinfo *res)
 	free (g_gai_res);
 }
 
+/* strlen (abstract, like strchr): the caller's text has SOME length -- any -- that the library may ask for but must not
+ * base acceptance on (acceptance is the platform's: inet_pton / getaddrinfo) */
+size_t strlen (const char *s) { ENV_REQ (s != NULL, "strlen: non-NULL string"); return g_text_len; }
 char *strchr (const char *s, int c)
 {
 	ENV_REQ (s != NULL, "strchr: non-NULL string");
